@@ -51,7 +51,7 @@ def make_jobs(chk):
     cmdname = {"s": "step", "r": "rewind"}
     depth = 8 if quick else 11
     for name, script, stack, sv, fl, succ, weight in catalogue():
-        d = depth if len(script) < 100 else 3
+        d = depth if len(checklib.script_ops(script)) <= 16 else 3
         for h in histories(d):
             if len(h) < d and rng.random() < 0.0:
                 continue
@@ -61,6 +61,12 @@ def make_jobs(chk):
             n += 1
             jobs.append(SessionJob("h%d:%s:%s" % (n, name, "".join(h)), script, stack, fl, sv, succ=succ, cmds=[cmdname[c] for c in h] + ["run"],
                                    cmp=CMP, hist=True, weight=weight))
+        if name == "budget":
+            # step over each signature check and back, repeatedly (the budget must come back each time)
+            for k in (3, 7, 10):
+                n += 1
+                jobs.append(SessionJob("h%d:%s:cycle%d" % (n, name, k), script, stack, fl, sv, succ=succ,
+                                       cmds=["step"] * k + ["rewind", "step"] * 4 + ["rewind"] * k + ["step"] * k + ["run"], cmp=CMP, hist=True, weight=weight))
         # the op-count script: walk to the end and back
         if name == "opcount":
             for k in (199, 200, 201, 202):
